@@ -62,7 +62,9 @@ def r1(ctx):
     ctx.check(ok, "C03.R1", "simplification is applied to the reduced span", f.module.line(branch[0]), ctx.construct(f, text="simplify(span)"),
               f"_simplify_scoped_terms must receive `{span_var}`")
     upd = [s for s in body if isinstance(s, ast.Expr) and norm(s.value) == f"spanned.update({span_var})"]
-    ok_upd = len(upd) == 1 and simp and upd[0].lineno > simp[0][2].lineno
+    # the span variable is never rebound by the simplification (its result goes to another name), so the update may
+    # stand on either side of it
+    ok_upd = len(upd) == 1 and bool(simp) and simp[0][0] != span_var
     ctx.check(ok_upd, "C03.R1", "`spanned` is updated with the un-simplified span after simplification", f.module.line(branch[0]),
               ctx.construct(f, text="spanned.update(span)"),
               f"expected `spanned.update({span_var})` after the simplification (updating with the simplified terms, or not at all, "
@@ -166,11 +168,15 @@ def r3(ctx):
         ok = len(rec) == 1 and "terms - (existing_term,)" in norm(rec[0].args[0])
         ctx.check(ok, "C03.R3", "the existing term is removed and the result re-simplified", s.module.line(b), ctx.construct(s, text="recursion"),
                   "expected cls._simplify_scoped_terms(terms - (existing_term,) | (merged,))")
-        ctx.check(any(isinstance(x, ast.Break) for x in b.body) and any(norm(x) == "combined = True" for x in b.body), "C03.R3",
+        # "merged" is signalled to the code after the inner loop either by a flag or by leaving the loop with `break` (for … else)
+        APPEND = "terms = terms | (scoped_term,)"
+        for_else = bool(il.orelse) and [norm(x) for x in il.orelse] == [APPEND]
+        ctx.check(any(isinstance(x, ast.Break) for x in b.body) and (any(norm(x) == "combined = True" for x in b.body) or for_else), "C03.R3",
                   "after a merge the candidate is not also appended", s.module.line(b), ctx.construct(s, text="combined flag"),
                   "the merge branch must set combined = True and break")
     tail = [n for n in lp.body if isinstance(n, ast.If) and norm(n.test) == "not combined"]
-    ok = len(tail) == 1 and norm(tail[0].body[0]) == "terms = terms | (scoped_term,)"
+    ok = (len(tail) == 1 and norm(tail[0].body[0]) == "terms = terms | (scoped_term,)") or \
+        (bool(il.orelse) and [norm(x) for x in il.orelse] == ["terms = terms | (scoped_term,)"] and not tail)
     ctx.check(ok, "C03.R3", "an unmerged candidate is appended unchanged", s.module.line(lp), ctx.construct(s, text="append"),
               "expected `if not combined: terms = terms | (scoped_term,)`")
 
